@@ -20,6 +20,7 @@ outside /repo and /verif, removed afterwards):
   T9 logging-inserted  `logger.debug(..)` after every simple statement of non-jitted functions
   T10 docstrings-stripped
   T11 swap-independent  adjacent call-free assignments that do not depend on each other are swapped
+  T12 rename-private-params  positional parameters of private (underscore) functions never called with keywords are renamed
 Every registered check must exit 0 on every twin.
 """
 import ast, json, os, shutil, subprocess, symtable, sys, tempfile
@@ -394,10 +395,64 @@ def t_swap(src, fname):
     return ast.unparse(ast.fix_missing_locations(tree))
 
 
+
+# ---------------------------------------------------------------- T12
+def _kw_called(trees):
+    """names of functions that are called with keyword arguments somewhere in the package"""
+    out = set()
+    for t in trees.values():
+        for n in ast.walk(t):
+            if isinstance(n, ast.Call) and n.keywords:
+                f = n.func
+                out.add(f.attr if isinstance(f, ast.Attribute) else f.id if isinstance(f, ast.Name) else "")
+    return out
+
+
+class ParamRename(ast.NodeTransformer):
+    def __init__(self, kw):
+        self.kw = kw
+
+    def visit_FunctionDef(self, n):
+        self.generic_visit(n)
+        if not n.name.startswith("_") or n.name.startswith("__") or n.name in self.kw or n.args.vararg or n.args.kwarg or n.args.kwonlyargs:
+            return n
+        if any(isinstance(x, ast.Call) and isinstance(x.func, ast.Name) and x.func.id in ("locals", "vars") for x in ast.walk(n)):
+            return n
+        ren = {a.arg: a.arg + "_tw" for a in n.args.args if a.arg not in ("self", "cls")}
+        # nested scopes that rebind a name are left alone entirely (keep it simple: skip such functions)
+        for x in ast.walk(n):
+            if x is not n and isinstance(x, (ast.FunctionDef, ast.Lambda)):
+                inner = {a.arg for a in x.args.args}
+                if inner & set(ren):
+                    return n
+        for a in n.args.args:
+            if a.arg in ren:
+                a.arg = ren[a.arg]
+        for x in ast.walk(n):
+            if isinstance(x, ast.Name) and x.id in ren:
+                x.id = ren[x.id]
+        return n
+
+
+_PKG_TREES = None
+
+
+def t_paramrename(src, fname):
+    global _PKG_TREES
+    if _PKG_TREES is None:
+        _PKG_TREES = {}
+        for fn in os.listdir(SRC):
+            if fn.endswith(".py"):
+                _PKG_TREES[fn] = ast.parse(open(os.path.join(SRC, fn)).read())
+    tree = ast.parse(src)
+    ParamRename(_kw_called(_PKG_TREES)).visit(tree)
+    return ast.unparse(ast.fix_missing_locations(tree))
+
+
 TWINS = {"T1": ("unparse", t_unparse), "T2": ("rename-locals", t_rename), "T3": ("pass-padding", t_pad),
          "T4": ("return-temp", t_rettemp), "T5": ("arg-temps", t_argtemps),
          "T6": ("compare-flip", t_cmpflip), "T7": ("if-else-swap", t_ifswap), "T8": ("keyword-reverse", t_kwrev),
-         "T9": ("logging-inserted", t_loginsert), "T10": ("docstrings-stripped", t_docstrip), "T11": ("swap-independent", t_swap)}
+         "T9": ("logging-inserted", t_loginsert), "T10": ("docstrings-stripped", t_docstrip), "T11": ("swap-independent", t_swap), "T12": ("rename-private-params", t_paramrename)}
 
 
 def emit(tid, dest):
